@@ -560,7 +560,8 @@ void swap(image<Pixel, IsPlanar, Alloc>& im1,image<Pixel, IsPlanar, Alloc>& im2)
 template <typename Pixel1, bool IsPlanar1, typename Alloc1, typename Pixel2, bool IsPlanar2, typename Alloc2>
 bool operator==(const image<Pixel1,IsPlanar1,Alloc1>& im1,const image<Pixel2,IsPlanar2,Alloc2>& im2)
 {
-    if ((void*)(&im1)==(void*)(&im2)) return true;
+    // No shortcut for one and the same object: a pixel with a NaN channel is not equal to itself,
+    // and equal_pixels as well as the comparison with a copy of the image say so
     if (const_view(im1).dimensions()!=const_view(im2).dimensions()) return false;
     return equal_pixels(const_view(im1),const_view(im2));
 }
